@@ -160,15 +160,22 @@ def c17_sweep(ctx, rng, stride=1, which="gen"):
         files = generate(ctx, d)
         if files is None:
             ctx.record({"sweep": which}, True, False, False, False, detail={"what": "config generate failed"}); return
-        fn = {"gen": "Monorail.json", "src": "Monorail.src.json"}[which]
+        fn = {"gen": "Monorail.json", "src": "Monorail.src.json", "lock": "Monorail.lock"}[which]
         data = files[which]
         accepted = []
+        def same_lock(b):
+            # an edit of the lockfile that leaves a parseable file with the identical checksum string is not a change of the checksum
+            try: return json.loads(b.decode("utf-8")).get("checksum") == json.loads(data.decode("utf-8")).get("checksum")
+            except Exception: return False
         for off in range(0, len(data), stride):
-            for new in ((data[off] ^ 1), (data[off] + 1) % 256 if data[off] not in (0x22, 0x5c) else 0x41):
+            # the lockfile is small: every single-bit flip of every byte (this includes the upper/lower-case forms of hex letters)
+            news = [data[off] ^ (1 << b) for b in range(8)] if which == "lock" else [(data[off] ^ 1), (data[off] + 1) % 256 if data[off] not in (0x22, 0x5c) else 0x41]
+            for new in news:
                 if new == data[off]: continue
+                if which == "lock" and same_lock(data[:off] + bytes([new]) + data[off + 1:]): continue
                 open(os.path.join(d, fn), "wb").write(data[:off] + bytes([new]) + data[off + 1:])
                 rc, out, err, raw = cli(d, "config", "show")
-                rc2, out2, err2, raw2 = cli(d, "target", "show")
+                rc2, out2, err2, raw2 = cli(d, "target", "show") if which != "lock" else (1, None, None, None)
                 ctx.evaluations += 1; ctx.traces_validated += 1
                 if rc == 0 or rc2 == 0:
                     accepted.append({"offset": off, "old": data[off], "new": new, "context": data[max(0, off - 12):off + 12].decode("latin1")})
@@ -177,13 +184,14 @@ def c17_sweep(ctx, rng, stride=1, which="gen"):
         ok = not accepted and rc == 0
         ctx.count("sweep_%s_offsets" % which, len(range(0, len(data), stride)))
         ctx.record({"sweep": which, "size": len(data), "stride": stride}, True, ok, ok, True,
-                   sample={"sweep": which, "file_size": len(data), "edits_tried": 2 * len(range(0, len(data), stride)), "accepted": len(accepted)},
+                   sample={"sweep": which, "file_size": len(data), "edits_tried": (8 if which == "lock" else 2) * len(range(0, len(data), stride)), "accepted": len(accepted)},
                    detail={"what": "single-byte edits of the %s file that the loader accepted" % which, "accepted": accepted[:8], "restored_ok": rc == 0})
     finally:
         shutil.rmtree(d, ignore_errors=True)
 
 def run_c17(ctx, scale):
     c17_sweep(ctx, ctx.rng, stride=1 if not ctx.quick() else 1, which="gen")
+    c17_sweep(ctx, ctx.rng, stride=1, which="lock")
     if not ctx.quick(): c17_sweep(ctx, ctx.rng, stride=1, which="src")
     rng = ctx.rng
     sizes = [None, 8191, 8192, 8193, 20000] if ctx.quick() else [None, 4000, 8190, 8191, 8192, 8193, 8194, 16384, 65536, 65537, 200000, 300000]
@@ -208,6 +216,12 @@ def serialisations(rng, cfg):
     compact = json.dumps(cfg, separators=(",", ":"), ensure_ascii=False)
     out = [("compact", compact), ("pretty2", json.dumps(cfg, indent=2, ensure_ascii=False)), ("pretty8", json.dumps(cfg, indent=8)),
            ("shuffled", json.dumps(shuffled(cfg), indent=1, ensure_ascii=False))]
+    # every kind of JSON white space, in every position: CRLF line endings (a Windows editor, core.autocrlf), a leading or a
+    # trailing CR / CRLF / tab, CR between tokens
+    pretty = json.dumps(cfg, indent=2, ensure_ascii=False)
+    out += [("crlf_pretty", pretty.replace("\n", "\r\n") + "\r\n"), ("crlf_tail", compact + "\r\n"), ("crlf_lead", "\r\n" + compact),
+            ("cr_lead_tail", "\r" + compact + "\r"), ("tab_lead_tail", "\t" + compact + "\t\n"), ("tabs_pretty", json.dumps(cfg, indent="\t", ensure_ascii=False)),
+            ("cr_between", compact.replace(",", ",\r", 3))]
     # a multi-byte UTF-8 character placed so that each of its bytes falls on a multiple of 8192 (any chunked reader's seam)
     enc = compact.encode("utf-8")
     mb = next((i for i, b in enumerate(enc) if b >= 0x80), None)
@@ -275,7 +289,7 @@ def c18_generate_case(ctx, rng, n_targets):
     try:
         open(os.path.join(d, "Monorail.src.json"), "w").write(json.dumps(doc))      # the source file on disk never changes
         sers = serialisations(rng, doc)
-        sers = sers[:4] + [x for x in sers[4:] if x[0].endswith("_9000") or x[0].endswith("_70000")][:4] + [("split_writes", sers[0][1]), ("split_writes_pretty", sers[1][1])]
+        sers = sers[:4] + [x for x in sers[4:] if x[0].endswith("_9000") or x[0].endswith("_70000")][:4] + [x for x in sers if x[0].startswith(("crlf", "cr_", "tab"))] + [("split_writes", sers[0][1]), ("split_writes_pretty", sers[1][1])]
         ref = None
         for name, text in sers:
             for f in ("Monorail.json", "Monorail.lock"):
